@@ -17,7 +17,7 @@ RULE = (
     "enumerates every sequence of length<=3 over subsets of {md5,xxh64,sha1} x every valid transition pattern; "
     "class = (format-set sequence shape, content pattern, mode, nested) with length>=2"
 )
-ASSUMPTIONS = ["sequence length <= 6; content is altered only after all histories exist, so 'first generation that records the path in its history' is unambiguous"]
+ASSUMPTIONS = ["sequence length <= 6 (6 % of the cases: 11-13); content is altered only after all histories exist, so 'first generation that records the path in its history' is unambiguous"]
 MIN_DECIDING = {"entries_judged": 200, "gens_altered": 10, "gens_newformat": 10}
 
 ALPH = ["md5", "xxh64", "sha1"]
@@ -64,7 +64,10 @@ def run_case(cs):
         cs.count("exhaustive_cases")
     else:
         L = rng.randint(1, 6)
-        seq = [world.gen_formats(rng) for _ in range(L)]
+        if rng.random() < 0.06:
+            L = rng.randint(11, 13)  # generation numbers with two digits
+            cs.count("long_sequences")
+        seq = [world.gen_formats(rng) if L < 10 else rng.sample(["md5", "xxh64", "sha1"], rng.randint(1, 2)) for _ in range(L)]
         nfiles = rng.randint(1, 4)
         places = ["", "sub/", "K/", "K/deep/"]
         files = []
